@@ -315,6 +315,45 @@ Proof.
         try (intros _; repeat split; [assumption|lia]); try (intros _; reflexivity).
 Qed.
 
+(* a hash that passes keeps passing when it gets smaller: the accepted set of
+   a compact target is downward closed *)
+Theorem pow_accept_downward_closed hash hash' c :
+  pow_verify hash c = true -> hash' <= hash -> pow_verify hash' c = true.
+Proof.
+  intros H Hle. apply pow_accept_iff in H as (Hn & Ho & Hh).
+  apply pow_accept_iff. repeat split; try assumption. lia.
+Qed.
+
+(* an easier (larger) canonical compact target accepts every hash a harder
+   one accepts: lowering the difficulty never rejects an accepted header hash *)
+Theorem pow_accept_monotone_in_compact hash c1 c2 :
+  canonicalb c1 = true -> canonicalb c2 = true -> c1 <= c2 ->
+  pow_verify hash c1 = true -> pow_verify hash c2 = true.
+Proof.
+  intros H1 H2 Hle H.
+  destruct (N.eq_dec c1 c2) as [->|Hne]; [exact H|].
+  pose proof (compact_to_target_strictly_monotone c1 c2 H1 H2 ltac:(lia)) as Hlt.
+  destruct (compact_encode_decode c2 H2) as (Ho2 & _ & _).
+  apply pow_accept_iff in H as (Hn & Ho & Hh).
+  apply pow_accept_iff. repeat split; try assumption; lia.
+Qed.
+
+(* the strictness of the order: between two distinct canonical compacts there
+   is a hash the easier one accepts and the harder one rejects *)
+Theorem pow_accept_separates hash c1 c2 :
+  canonicalb c1 = true -> canonicalb c2 = true -> c1 < c2 ->
+  hash = fst (compact_to_target c2) ->
+  pow_verify hash c2 = true /\ pow_verify hash c1 = false.
+Proof.
+  intros H1 H2 Hlt ->.
+  pose proof (compact_to_target_strictly_monotone c1 c2 H1 H2 Hlt) as Ht.
+  destruct (compact_encode_decode c2 H2) as (Ho2 & _ & _).
+  split.
+  - apply pow_accept_iff. repeat split; try assumption; lia.
+  - destruct (pow_verify (fst (compact_to_target c2)) c1) eqn:E; [|reflexivity].
+    apply pow_accept_iff in E as (_ & _ & Hh). lia.
+Qed.
+
 (* non-vacuity *)
 Example compact_examples :
   canonicalb DIFF_TWO = true /\ compact_to_target DIFF_TWO = (2 ^ 255, false) /\
